@@ -96,6 +96,7 @@ def run(ctx):
         ("R19.d", "the name counter only increases by one, is embedded in every name, and names every generated instance"),
         ("R19.e", "__next__: StopIteration at the limit, one increment, returns generate(); __iter__ restarts the iteration count only"),
         ("R19.f", "no recirculation: per-job pool re-created per job; chosen machine removed from it"),
+        ("R19.h", "the machine list of a flexible operation is drawn without replacement (distinct machine ids)"),
         ("R19.g", "num_jobs jobs of num_machines operations; sizes and durations drawn from the configured ranges"),
     ):
         chk.rule(rid, txt)
@@ -142,6 +143,9 @@ def run(ctx):
                 chk.violation("R19.a", generate, n, "generate does not pass a pool derived from num_machines to create_random_operation", loc=generate.loc(n))
             else:
                 chk.ok("R19.a", generate.qualname, generate.loc(n), "pool = f(num_machines)")
+
+    # ---------------------------------------------------------------- R19.h
+    _distinct_machines(ctx, cro, op_cls)
 
     # ---------------------------------------------------------------- R19.b
     _jobs_vs_machines(ctx, generate)
@@ -230,6 +234,84 @@ def run(ctx):
 
     # ---------------------------------------------------------------- R19.f/g
     _pool_and_shape(ctx, gen_cls, generate, cro)
+
+
+_DRAW_ONE = ("choice", "randint", "randrange")
+
+
+def _distinct_machines(ctx, cro_raw, op_cls):
+    """R19.h on the flattened create_random_operation: whatever reaches
+    Operation(machines=<list>) is not sampled with replacement."""
+    chk, repo = ctx.chk, ctx.repo
+    cro = ctx.norm.flat(cro_raw)
+    defs = ctx.flow.defs(cro)
+    n_sites = 0
+    for n in own_nodes(cro.node):
+        if not (isinstance(n, ast.Call) and repo.resolve(cro_raw.module.name, dotted(n.func) or "") == op_cls.qualname):
+            continue
+        marg = next((k.value for k in n.keywords if k.arg == "machines"), n.args[0] if n.args else None)
+        if marg is None:
+            continue
+        # names the argument is computed from (transitively, by name)
+        names, work, exprs = set(), [marg], [marg]
+        while work:
+            e = work.pop()
+            for x in ast.walk(e):
+                if isinstance(x, ast.Name) and x.id not in names:
+                    names.add(x.id)
+                    for d in defs.of(x.id):
+                        if d[0] == "value" and d[1] is not None:
+                            work.append(d[1])
+                            exprs.append(d[1])
+        n_sites += 1
+        bad = False
+        for e in exprs:
+            for c in ast.walk(e):
+                if isinstance(c, ast.Call) and isinstance(c.func, ast.Attribute) and c.func.attr == "choices":
+                    bad = True
+                    chk.violation(
+                        "R19.h", cro, c,
+                        f"the machines of an operation are drawn with `{ast.unparse(c)[:70]}`: choices() samples with "
+                        "replacement, so an operation can list the same machine twice and fewer distinct machines "
+                        "than requested",
+                        loc=cro.loc(c),
+                    )
+        # lists filled one draw at a time inside a loop
+        for loop in own_nodes(cro.node):
+            if not isinstance(loop, (ast.For, ast.While)):
+                continue
+            body_calls = [c for st in loop.body for c in ast.walk(st) if isinstance(c, ast.Call) and isinstance(c.func, ast.Attribute)]
+            for c in body_calls:
+                if c.func.attr not in ("append", "add") or not isinstance(c.func.value, ast.Name) or c.func.value.id not in names or not c.args:
+                    continue
+                drawn = c.args[0]
+                dexpr = drawn
+                if isinstance(drawn, ast.Name):
+                    ds = [d[1] for d in defs.of(drawn.id) if d[0] == "value" and d[1] is not None]
+                    dexpr = ds[-1] if ds else drawn
+                if not (isinstance(dexpr, ast.Call) and isinstance(dexpr.func, ast.Attribute) and dexpr.func.attr in _DRAW_ONE):
+                    continue
+                dtxt = ast.unparse(drawn)
+                removed = any(
+                    k.func.attr in ("remove", "discard", "pop") and k.args and dtxt in ast.unparse(k.args[0])
+                    for k in body_calls
+                ) or any(
+                    isinstance(t, ast.Compare) and any(isinstance(o, (ast.NotIn, ast.In)) for o in t.ops) and dtxt in ast.unparse(t)
+                    for st in loop.body for t in ast.walk(st)
+                )
+                if removed:
+                    chk.ok("R19.h", cro.qualname, cro.loc(c), f"`{dtxt}` is removed from the pool (or tested for membership) before the next draw")
+                else:
+                    bad = True
+                    chk.violation(
+                        "R19.h", cro, c,
+                        f"`{dtxt}` is drawn with {dexpr.func.attr}() in a loop and appended, but never removed from the "
+                        "pool nor tested for membership: the same machine can be drawn again",
+                        loc=cro.loc(c),
+                    )
+        if not bad:
+            chk.ok("R19.h", cro.qualname, cro.loc(n), "no with-replacement draw reaches Operation(machines=...)")
+    chk.floor("R19.h", n_sites, 1, "Operation constructions in create_random_operation")
 
 
 def _jobs_vs_machines(ctx, generate_raw):
